@@ -20,13 +20,23 @@ _G = {}
 
 def _init_worker(consts, init, caching, vertex_cls_name):
     from edgegraph.structure import Vertex
+    from . import probes as P
     Vertex.NEIGHBOR_CACHING = caching
     _G["consts"], _G["init"] = consts, init
-    _G["vcls"] = Vertex
+    _G["vcls"] = P.VERTEX_CLASSES[vertex_cls_name or "Vertex"]
 
 
 def _run_task(task):
-    path, calls = task
+    path, calls, probe_spec = task
+    if probe_spec is not None:
+        from . import probes as P
+        w = W.World(_G["consts"], _G["init"], _G["vcls"])
+        for pc in path:
+            w.apply(pc)
+        S = w.project()
+        pr = P.run(w, S, probe_spec)
+        after = w.project()
+        return ("probe", S, pr, after)
     out = []
     for c in calls:
         w = W.World(_G["consts"], _G["init"], _G["vcls"])
@@ -52,28 +62,41 @@ def parse_transitions(lines):
     return {k: list(v.values()) for k, v in calls_at.items()}, states
 
 
-def explore(consts, init_state, calls_at, model_states, *, caching=False, procs=16, max_records=None):
+def explore(consts, init_state, calls_at, model_states, *, caching=False, procs=16, max_records=None,
+            probe=None, vertex_cls=None, keep_records=True, probe_filter=None):
+    """probe: a picklable spec for harness.probes.run, evaluated once in every confirmed state
+    (optionally only where probe_filter(state_key) is true)."""
     ctx = mp.get_context("fork")
     confirmed = {W.key(init_state): []}
     frontier = [W.key(init_state)]
     records = []
+    probed = []
+    nrec = 0
     offmodel = 0
     level = 0
-    with ctx.Pool(procs, initializer=_init_worker, initargs=(consts, init_state, caching, None)) as pool:
+    with ctx.Pool(procs, initializer=_init_worker, initargs=(consts, init_state, caching, vertex_cls)) as pool:
         while frontier:
             tasks = []
             for ks in frontier:
                 calls = calls_at.get(ks, [])
+                if probe is not None and (probe_filter is None or probe_filter(ks)):
+                    tasks.append((confirmed[ks], None, probe))
                 if calls:
                     # split big call lists so that the pool stays busy
                     for i in range(0, len(calls), 8):
-                        tasks.append((confirmed[ks], calls[i:i + 8]))
+                        tasks.append((confirmed[ks], calls[i:i + 8], None))
             nxt = []
-            for (path, _), outs in zip(tasks, pool.imap(_run_task, tasks, chunksize=8)):
+            for (path, _, _), outs in zip(tasks, pool.imap(_run_task, tasks, chunksize=4)):
+                if outs and outs[0] == "probe":
+                    _, S, pr, after = outs
+                    probed.append({"id": len(probed) + 1, "S": S, "probes": pr, "after": after, "path": path})
+                    continue
                 for pre, c, res, post in outs:
-                    rid = len(records) + 1
-                    records.append({"id": rid, "pre": pre, "c": c, "res": res, "post": post,
-                                    "cls": W.alias_class(pre, c), "plen": len(path)})
+                    nrec += 1
+                    rid = nrec
+                    if keep_records:
+                        records.append({"id": rid, "pre": pre, "c": c, "res": res, "post": post,
+                                        "cls": W.alias_class(pre, c), "plen": len(path)})
                     kp = W.key(post)
                     if kp in model_states:
                         if kp not in confirmed:
@@ -83,11 +106,14 @@ def explore(consts, init_state, calls_at, model_states, *, caching=False, procs=
                         offmodel += 1
             frontier = nxt
             level += 1
-            if max_records and len(records) >= max_records:
+            if max_records and nrec >= max_records:
                 break
     stats = {"model_states": len(model_states), "confirmed_states": len(confirmed),
              "unconfirmed_states": len(model_states) - len(confirmed), "offmodel_posts": offmodel,
-             "levels": level, "records": len(records)}
+             "levels": level, "records": nrec, "probed_states": len(probed),
+             "probes": sum(len(p["probes"]) for p in probed)}
+    if probe is not None:
+        return records, confirmed, stats, probed
     return records, confirmed, stats
 
 
